@@ -186,7 +186,7 @@ func (ex *Exec) blockedDesc() string {
 func (t *Thread) site() string {
 	for i := len(t.stack) - 1; i >= 0; i-- {
 		f := t.stack[i]
-		if f.Pkg != nil && strings.HasSuffix(f.Pkg.Pkg.Path(), "/trzsz") && !strings.Contains(f.Name(), "zz") {
+		if f.Pkg != nil && strings.HasSuffix(f.Pkg.Pkg.Path(), "/trzsz") && !strings.Contains(f.String(), "trzsz.zz") && !strings.Contains(f.String(), "trzsz.verif") {
 			n := f.String()
 			return n[strings.LastIndex(n, "/")+1:]
 		}
